@@ -149,7 +149,7 @@ pub fn evaluate(d: &mut Driver, case: &Case) -> Outcome {
             Outcome { impl_rec, model_rec, impl_run: None, model_run: None, agree, skipped_fuel: false }
         }
         Kind::Run => {
-            let mr = imp::parse_model_run(&model_rec).map(|x| x.0);
+            let mr = imp::parse_model_run_opts(&model_rec, case.tags.iter().any(|t| t == "allow-cyclic")).map(|x| x.0);
             // the model runs first: a program it cannot finish (a list that contains itself, unbounded
             // recursion) is excluded by the properties and would overflow the native stack here
             if let Some(m) = &mr {
